@@ -21,6 +21,7 @@ func init() {
 			"R4 raw output: InspectPayload / InspectSignature write the field bytes themselves (C19.R5). " +
 			"R5 (= C20.R1) the Cloud KMS signer returns a signature only behind the response-CRC, verified-digest/data and options guards, so the bytes signed are the digest SignDoc computed. " +
 			"R6 (= C11.R4/R4b/R7) in the storage-backed authority a key version's manifest entry names the object uploaded for it through the gate, so the certificate SignDoc embeds is the signing key's own. " +
+			"R8 (= C01.R2) the chain check hands x509 exactly {Roots: caller roots, CurrentTime: caller time}. " +
 			"R7 no write in the call closures of endorse.SignDoc, rotate.Key and rotate.Bootstrap goes to a package-level variable (no process-wide cache of keys, certificates or signatures). " +
 			"Not covered: that verification succeeds (runtime cryptography), validity windows, rotation histories, storage-backed versus in-memory authorities.",
 		Assumptions: []string{"go/types, go/ssa", "crypto/rsa, crypto/x509 semantics"},
@@ -32,6 +33,9 @@ func runC03(c *Ctx) {
 	// R5 = C20.R1: a Cloud KMS signature is only handed to SignDoc after the service confirmed that it signed the
 	// digest that was sent (a digest damaged in transit yields a well-formed signature that does not verify).
 	c.borrow("R5/C20.", runC20, func(rule, _ string) bool { return rule == "R1" })
+	// R8 = C01.R2: the verifier's chain check runs at exactly the caller's verification time with the caller's roots
+	// (a shifted or widened time refuses endorsements inside the validity of both certificates).
+	c.borrow("R8/C01.", runC01, func(rule, _ string) bool { return rule == "R2" })
 	// R7: signing and certification keep no package-level state (a process-wide memo of public keys, certificates or
 	// signatures outlives the key material it was computed from: a later certificate or document is built from a
 	// stale entry and does not verify).
